@@ -172,3 +172,7 @@ impl State {
         self.abort_function_calls.pop()
     }
 }
+
+#[cfg(kani)]
+#[path = "/verif/harness/broker/state.rs"]
+pub(crate) mod verif;
